@@ -4,6 +4,7 @@ import genmeta
 from props import C04 as _C04
 import functools
 import common
+import directed
 
 DESCRIPTION = ("Lean: Props/C17.lean (frame property of the heap model: defining a class or decorating a function writes only "
                "to cells it allocated; the invariant decorator writes only to the decorated class's own lists). Oracle: after "
@@ -23,8 +24,13 @@ TARGETS = ["function", "method", "staticmethod", "async_function"]
 DECOS = ["require", "ensure", "snapshot+ensure"]
 
 
+run_directed = directed.run
+
+
 def cases(tier, rng):
     thorough = tier == "thorough"
+    for c in directed.recreated_class_cases():
+        yield "directed-recreated-class", c
     for kind in DERIVED_KINDS:
         for target in TARGETS:
             for deco in DECOS:
